@@ -9,14 +9,16 @@ theorem all_etables_drained_by_close : ∀ t : ETbl, t ∈ closeDrains := by
 /-- `close` on an open endpoint: every table emptied into the wake log, flag set -/
 theorem close_open (e : Ep) (h : e.closed = false) :
     (∀ t, e.close.tabs t = []) ∧ e.close.closed = true ∧ e.close.incoming = e.incoming ∧
-    ∀ w t, w ∈ e.tabs t → w ∈ e.close.woken := by
-  refine ⟨?_, ?_, ?_, ?_⟩
+    (∀ w t, w ∈ e.tabs t → w ∈ e.close.woken) ∧ e.close.untold = 0 ∧ e.close.told = e.told + e.untold := by
+  refine ⟨?_, ?_, ?_, ?_, ?_, ?_⟩
   · intro t; cases t
     simp [Ep.close, closeBody, h, Ep.applyClose, Ep.setTab]
   · simp [Ep.close, closeBody, h, Ep.applyClose, Ep.setTab]
   · simp [Ep.close, closeBody, h, Ep.applyClose, Ep.setTab]
   · intro w t hw; cases t
     simp [Ep.close, closeBody, h, Ep.applyClose, Ep.setTab, hw]
+  · simp [Ep.close, closeBody, h, Ep.applyClose, Ep.setTab]
+  · simp [Ep.close, closeBody, h, Ep.applyClose, Ep.setTab]
 
 theorem close_closed (e : Ep) (h : e.closed = true) : e.close = e := by
   simp [Ep.close, closeBody, h]
@@ -27,12 +29,15 @@ theorem close_sets_closed (e : Ep) : e.close.closed = true := by
   | false => exact (close_open e h).2.1
 
 /-- the invariant: once closed, nobody is parked -/
-def EInv (e : Ep) : Prop := e.closed = true → ∀ t, e.tabs t = []
+def EInv (e : Ep) : Prop := e.closed = true → (∀ t, e.tabs t = []) ∧ e.untold = 0
 
 theorem einv_init : EInv Ep.init := fun h => by cases h
 
-theorem applyWake_closed (e : Ep) (w : LoopWake) : (e.applyWake w).closed = e.closed := by
-  cases w <;> rfl
+theorem born_closed : newConnectionBornClosedWhenClosed = true := by decide
+
+theorem applyWake_closed (e : Ep) (w : LoopWake) :
+    (e.applyWake w).closed = e.closed ∧ (e.applyWake w).untold = e.untold := by
+  cases w <;> exact ⟨rfl, rfl⟩
 
 theorem applyWake_empty (e : Ep) (w : LoopWake) (h : ∀ t, e.tabs t = []) : ∀ t, (e.applyWake w).tabs t = [] := by
   intro t
@@ -41,28 +46,30 @@ theorem applyWake_empty (e : Ep) (w : LoopWake) (h : ∀ t, e.tabs t = []) : ∀
   | wakeAll t' => simp only [Ep.applyWake, Ep.setTab]; split <;> simp [h]
 
 theorem runChain_keeps (c : List (LoopCond × LoopWake)) : ∀ e : Ep,
-    (e.runChain c).closed = e.closed ∧ ((∀ t, e.tabs t = []) → ∀ t, (e.runChain c).tabs t = []) := by
+    (e.runChain c).closed = e.closed ∧ (e.runChain c).untold = e.untold ∧
+      ((∀ t, e.tabs t = []) → ∀ t, (e.runChain c).tabs t = []) := by
   induction c with
-  | nil => intro e; exact ⟨rfl, fun h => h⟩
+  | nil => intro e; exact ⟨rfl, rfl, fun h => h⟩
   | cons p rest ih =>
     intro e
     obtain ⟨c, w⟩ := p
     simp only [Ep.runChain]
     split
-    · exact ⟨applyWake_closed e w, applyWake_empty e w⟩
+    · exact ⟨(applyWake_closed e w).1, (applyWake_closed e w).2, applyWake_empty e w⟩
     · exact ih e
 
 theorem loopTail_keeps (e : Ep) :
-    e.loopTail.closed = e.closed ∧ ((∀ t, e.tabs t = []) → ∀ t, e.loopTail.tabs t = []) := by
+    e.loopTail.closed = e.closed ∧ e.loopTail.untold = e.untold ∧
+      ((∀ t, e.tabs t = []) → ∀ t, e.loopTail.tabs t = []) := by
   unfold Ep.loopTail
   generalize loopChains = cs
   induction cs generalizing e with
-  | nil => exact ⟨rfl, fun h => h⟩
+  | nil => exact ⟨rfl, rfl, fun h => h⟩
   | cons c rest ih =>
     rw [List.foldl_cons]
-    obtain ⟨h1, h2⟩ := runChain_keeps c e
-    obtain ⟨i1, i2⟩ := ih (e.runChain c)
-    exact ⟨by rw [i1, h1], fun h => i2 (h2 h)⟩
+    obtain ⟨h1, h2, h3⟩ := runChain_keeps c e
+    obtain ⟨i1, i2, i3⟩ := ih (e.runChain c)
+    exact ⟨by rw [i1, h1], by rw [i2, h2], fun h => i3 (h3 h)⟩
 
 theorem poll_after_close (e : Ep) (h : e.closed = true) (w : Nat) :
     e.pollIncoming .endpointStatePollIncoming w = (e, .none) := by
@@ -88,23 +95,34 @@ theorem einv_step (e : Ep) (hi : EInv e) (o : EOp) : EInv (e.step o).1 := by
     intro _
     cases h : e.closed with
     | true => simp only [Ep.step]; rw [close_closed e h]; exact hi h
-    | false => exact (close_open e h).1
+    | false => exact ⟨(close_open e h).1, (close_open e h).2.2.2.2.1⟩
   | datagram nc =>
     intro hc
-    have key : ∀ e1 : Ep, e1.closed = e.closed → e1.tabs = e.tabs → e1.loopTail.closed = true →
-        ∀ t, e1.loopTail.tabs t = [] := by
-      intro e1 h1 h2 h3
-      obtain ⟨k1, k2⟩ := loopTail_keeps e1
+    have key : ∀ e1 : Ep, e1.closed = e.closed → e1.tabs = e.tabs → e1.untold = e.untold →
+        e1.loopTail.closed = true → (∀ t, e1.loopTail.tabs t = []) ∧ e1.loopTail.untold = 0 := by
+      intro e1 h1 h2 h4 h3
+      obtain ⟨k1, k2, k3⟩ := loopTail_keeps e1
       rw [k1, h1] at h3
-      exact k2 (by rw [h2]; exact hi h3)
+      exact ⟨k3 (by rw [h2]; exact (hi h3).1), by rw [k2, h4]; exact (hi h3).2⟩
     simp only [Ep.step] at hc ⊢
     split at hc
     · rename_i hcond
       rw [if_pos hcond]
-      exact key _ rfl rfl hc
+      exact key _ rfl rfl rfl hc
     · rename_i hcond
       rw [if_neg hcond]
-      exact key _ rfl rfl hc
+      exact key _ rfl rfl rfl hc
+  | newConn =>
+    intro hc
+    simp only [Ep.step] at hc ⊢
+    split at hc
+    · rename_i hcond
+      rw [if_pos hcond]
+      exact hi hc
+    · rename_i hcond
+      -- not born closed: then the endpoint is open (the regenerated flag is `true`)
+      simp only [born_closed, Bool.true_and, Bool.not_eq_true] at hcond
+      rw [hcond] at hc; cases hc
 
 theorem einv_run (ops : List EOp) : ∀ e : Ep, EInv e → EInv (e.run ops) := by
   induction ops with
